@@ -239,22 +239,22 @@ def answer (line : String) : String :=
   | "ftran" :: se :: gset :: kind, [s1, s2, s3, s4, s5, a, b, c, d, e, rq] =>
       match se.toNat?, nasTOf [s1, s2, s3, s4, s5, a, b, c, d, e], request kind rq with
       | some se, some nt, some rq =>
-          replyT (formtran mks nt se rq (gset = "1")) (fun r => showM r.1 ++ " | " ++ showL (flat2 r.2))
+          replyT (formtran (fun i d => [(i : Int), (d : Int)]) mks nt se rq (gset = "1")) (fun r => showM r.1 ++ " | " ++ showL (flat2 r.2))
       | _, _, _ => "bad-op"
   | ["fulvs", seup, sedn, kc, sc, gset], [s1, s2, s3, s4, s5, a, b, c, d, e, u] =>
       match seup.toNat?, sedn.toNat?, nasTOf [s1, s2, s3, s4, s5, a, b, c, d, e], ulvsOf u with
       | some seup, some sedn, some nt, some ul =>
-          replyT (formulvs mks nt ul seup sedn (kc = "1") (sc = "1") (gset = "1")) showU
+          replyT (formulvs (fun i d => [(i : Int), (d : Int)]) mks nt ul seup sedn (kc = "1") (sc = "1") (gset = "1")) showU
       | _, _, _, _ => "bad-op"
   | "fdrm" :: seup :: sedn :: gset :: kind, [s1, s2, s3, s4, s5, a, b, c, d, e, u, rq] =>
       match seup.toNat?, sedn.toNat?, nasTOf [s1, s2, s3, s4, s5, a, b, c, d, e], ulvsOf u, request kind rq with
       | some seup, some sedn, some nt, some ul, some rq =>
-          replyT (formdrm mks nt ul seup rq sedn (gset = "1")) (fun r => showM r.1 ++ " | " ++ showL (flat2 r.2))
+          replyT (formdrm (fun i d => [(i : Int), (d : Int)]) mks nt ul seup rq sedn (gset = "1")) (fun r => showM r.1 ++ " | " ++ showL (flat2 r.2))
       | _, _, _, _, _ => "bad-op"
   | ["addulvs", sedn, kc, sc, gset], [s1, s2, s3, s4, s5, a, b, c, d, e, u, ses] =>
       match sedn.toNat?, nasTOf [s1, s2, s3, s4, s5, a, b, c, d, e], ulvsOf u, nats ses with
       | some sedn, some nt, some ul, some ses =>
-          replyT (addulvs mks nt ul ses sedn (kc = "1") (sc = "1") (gset = "1"))
+          replyT (addulvs (fun i d => [(i : Int), (d : Int)]) mks nt ul ses sedn (kc = "1") (sc = "1") (gset = "1"))
             (fun l => " ; ".intercalate (l.map fun p => s!"{p.1} : " ++ showU p.2))
       | _, _, _, _ => "bad-op"
   | ["usetprt"], [tb, names] =>
